@@ -44,6 +44,11 @@ def check(repo: Repo, rep, tier):
     from .C13 import suffix_shape
 
     suffix_shape(repo, rep)
+    from .C03 import import_position
+    from .C13 import scan_total
+
+    import_position(repo, rep)
+    scan_total(repo, rep)
 
 
 def _calls_of(f, cfg, cg, key):
